@@ -63,7 +63,11 @@ def do_verify(d, checks):
     checks = checks or [prop]
     wt = "/tmp/sv_" + name.replace("/", "_")
     sh("git -C /repo worktree remove --force %s" % wt)
+    shutil.rmtree(wt, ignore_errors=True)
+    sh("git -C /repo worktree prune")
     rc, out = sh("git -C /repo worktree add --detach %s HEAD" % wt)
+    if rc != 0:
+        raise SystemExit("cannot create scratch worktree: " + out)
     meta = {"breaks_property": prop, "name": name, "repo_head": sh("git -C /repo rev-parse --short HEAD")[1].strip(),
             "verified_at": time.strftime("%Y-%m-%d %H:%M:%S")}
     notes = os.path.join(d, "notes.md")
@@ -102,6 +106,7 @@ def do_verify(d, checks):
                     break
     finally:
         sh("git -C /repo worktree remove --force %s" % wt)
+        shutil.rmtree(wt, ignore_errors=True)
         json.dump(meta, open(os.path.join(d, "meta.json"), "w"), indent=1)
     return meta
 
